@@ -12,6 +12,7 @@ def check(ctx):
     plots.consumer_tables(ctx, 'C20-R5')
     plots.no_state_between_plots(ctx, 'C20-R6')
     exceptions.locals_bound_before_use(ctx, 'C20-R7', scope='plots')
+    plots.string_arrays_wide_enough(ctx, 'C20-R8')
     ctx.undecided += ['totality of the matplotlib calls themselves; exact file contents',
                       'that an exception inside the plotting code still closes the figure']
     ctx.assumptions += ['plt.style.context / rc_context restore rcParams on exit, including on exceptions']
